@@ -1,5 +1,7 @@
 import VirtioVerif.Model.Proto
 import VirtioVerif.Model.Layout
+import VirtioVerif.Model.Mmio
+import VirtioVerif.Model.Config
 /-!
 Native line-protocol driver over all models: one request line in, one reply line out.
 `case …` lines reset per-case state and are echoed as `case`.
@@ -15,6 +17,8 @@ def step (w : World) (line : String) : World × String :=
   match line.trimAscii.toString.splitOn " " with
   | "case" :: _ => (World.fresh, "case")
   | "layout" :: op :: rest => (w, Layout.handle op (Proto.parseArgs rest))
+  | "mmio" :: op :: rest => (w, Mmio.handle op (Proto.parseArgs rest))
+  | "config" :: op :: rest => (w, Config.handle op (Proto.parseArgs rest))
   | _ => (w, "bad-op")
 
 partial def loop (h : IO.FS.Stream) (out : IO.FS.Stream) (w : World) : IO Unit := do
